@@ -3,11 +3,17 @@ package main
 const trustedNote = "Trusted base: go/packages + go/types + go/ssa (x/tools v0.29.0) for the configuration analysed; the audit table audit.json (one named construct per exception, reason recorded); the argument in DESIGN.md that each clause is a necessary condition of the property. The check decides the named structural clauses on every path / table cell of the current source; it does not execute uGO programs and does not decide the behavioural statement as a whole."
 
 func init() {
-	for _, id := range []string{"C01", "C02", "C04", "C05", "C06", "C07", "C08", "C09", "C10", "C11", "C12", "C14", "C16", "C17", "C19", "C20"} {
+	for _, id := range []string{"C01", "C02", "C04", "C06", "C07", "C08", "C09", "C10", "C11", "C12", "C14", "C16", "C17", "C19", "C20"} {
 		notApplicable[id] = "static check for this property is not implemented in this revision of /verif (planned clauses: DESIGN.md section 3); no claim is made"
 	}
 	notApplicable["C03"] = "finally-exactly-once depends on the run-time history of a per-activation handler list addressed by static nesting depths; every structural rule considered either restates today's mechanism (and would fire on a correct redesign) or is a mechanism-presence check the existing tests already pin. No sound static argument in reach bounds the handler-list history (DESIGN.md section 4)."
 
+	metas["C05"] = propMeta{
+		Text:      "Decides structural necessary conditions of 'Compile returns Bytecode or an error, never panics': (panic-reach) every explicit panic statement reachable in the VTA call graph from Compile / compileScript / Compiler.Compile / Eval.Run (VM excluded) is swallowed on every call path by a deferred recover that type-asserts its value type, or is a named audited unreachable site; (fold-guard) every integer / % and signed shift in the optimizer's folding code has a dominating zero/sign test; (cap-check) every success return after Compiler.Bytecode() is dominated by the NumLocals limit test made on that very bytecode; (op-table) for each of the opcodes the operand table, name table, MakeInstruction arm (bytes appended = sum of widths), VM dispatch arm and the width handlers of MakeInstruction/ReadOperands agree. Does not decide termination, Go stack exhaustion on deep nesting, implicit index/nil panics in general, or that emitted jump targets are in range. 'other': reachability + dominance + table agreement, not an exploration of inputs.",
+		Note:      trustedNote + " The VTA call graph is taken as an over-approximation of calls inside the repository.",
+		Technique: "static analysis: call-graph reachability of panic sites against recover barriers, dominating-guard analysis, opcode table cross-check",
+		DesignRef: "DESIGN.md section 3, C05",
+	}
 	metas["C13"] = propMeta{
 		Text:      "Decides the who-may-create and propagation structure behind 'a disabled builtin cannot be reached': (roles) root() walks to the table with nil parent and the getter, the disabled test and the evaluator's copy function read/write the ROOT table's set; (root-read) every access to SymbolTable.disabledBuiltins is on a root table (result of root(), a fresh NewSymbolTable, or a field/parameter that only ever holds such values); (gate) every Symbol created with ScopeBuiltin is dominated by the false outcome of the disabled test for the same name; (emit) OpGetBuiltin is emitted only with the index of a symbol just tested to be ScopeBuiltin or the private BuiltinMakeArray constant, BuiltinObjects is indexed only by the VM's dispatch loop and BuiltinsMap indexes are read only behind the gate; (propagate) every NewSymbolTable() is a fork, a module root that receives the importer's root set before use, the evaluator's table followed by the copy call on every path, or a default for a nil option; (eval-inherit) reset of the evaluator's table is followed by both copy calls on every path and every evaluator Compile is dominated by that function. Does not decide host code that disables a name after it was resolved, nor decoding of foreign bytecode. 'other': structural necessary conditions, not an exploration of scripts.",
 		Note:      trustedNote,
